@@ -141,6 +141,9 @@ class Helper:
         try:
             new, always = _eliminate_returns(body, "__ret", [0])
         except _NotInlinable:
+            # returns inside loops/try blocks: the body can still take the
+            # place of a `return helper(..)` statement as it is
+            self.kind = "tail"
             return
         if not always:
             new = [ast.Assign(targets=[ast.Name(id="__ret", ctx=ast.Store())],
@@ -156,6 +159,26 @@ class Helper:
 
 class _NotInlinable(Exception):
     pass
+
+
+def _always_returns(stmts):
+    """every path through the statement list ends in return/raise"""
+    for st in stmts:
+        if isinstance(st, (ast.Return, ast.Raise)):
+            return True
+        if isinstance(st, ast.If) and st.orelse and _always_returns(
+                st.body) and _always_returns(st.orelse):
+            return True
+        if isinstance(st, ast.With) and _always_returns(st.body):
+            return True
+        if isinstance(st, ast.Try):
+            if st.finalbody and _always_returns(st.finalbody):
+                return True
+            main = _always_returns(st.orelse) if st.orelse else \
+                _always_returns(st.body)
+            if main and all(_always_returns(h.body) for h in st.handlers):
+                return True
+    return False
 
 
 def _has_return(st):
@@ -305,6 +328,8 @@ class _Subst(ast.NodeTransformer):
 
 
 def _instantiate(h: Helper, call: ast.Call, caller_names, counter):
+    if h.kind == "tail":
+        return None
     b = _bind(h, call, caller_names, counter)
     if b is None:
         return None
@@ -579,6 +604,23 @@ class Inliner:
         elif isinstance(st, (ast.Assign, ast.AnnAssign, ast.AugAssign,
                              ast.Return)):
             val = st.value
+        if isinstance(val, ast.Call) and isinstance(st, ast.Return):
+            h = self._match(val, cls)
+            if h is not None and h.fn is not fn and h.kind == "tail":
+                b = _bind(h, val, names, self.counter)
+                if b is not None:
+                    prelude, sub = b
+                    body = [sub.visit(clone(s)) for s in h.raw_body]
+                    if not _always_returns(body):
+                        body.append(ast.Return(value=ast.Constant(
+                            value=None)))
+                    out = prelude + body
+                    for s_ in out:
+                        ast.copy_location(s_, st)
+                        ast.fix_missing_locations(s_)
+                    self.used.add((h.cls, h.fn.name))
+                    changed[0] = True
+                    return out
         if isinstance(val, ast.Call):
             h = self._match(val, cls)
             if h is not None and h.fn is not fn and h.kind == "multi" and (
